@@ -393,6 +393,9 @@ def run(ctx):
         for kw, must_fail in ([({'scale': 0}, True), ({'scale': -1}, True), ({'border': -1}, True), ({'border': 1.5}, True),
                                ({'scale': 1}, False), ({'border': 0}, False), ({'scale': 2, 'border': 3}, False), ({'scale': 0.5}, None), ({'scale': 2.7}, False)]
                               + [({'dark': c}, True) for c in bad_colors] + [({'light': c}, True) for c in bad_colors[:6]]
+                              # malformed tuples with a FLOAT alpha outside 0..1 (the int and the float branch of the alpha check are separate code)
+                              + [({'dark': c}, True) for c in ((10, 20, 30, -0.5), (10, 20, 30, 1.5), (1, 2, 3, -1e-9), (0, 0, 0, -1.0), (0, 0, 0, 2.0))]
+                              + [({'light': c}, True) for c in ((10, 20, 30, -0.5), (255, 255, 255, 1.0001))]
                               + [({'dark': c}, None) for c in good_colors] + [({'light': c}, None) for c in good_colors]):
             if kind in ('txt', 'ans') and ('scale' in kw or 'dark' in kw or 'light' in kw):
                 continue
